@@ -527,7 +527,16 @@ def bigring_check(tier):
         if rc != 0 or "ok" not in line:
             bad.append(f"{shape} n={n}: rc={rc} {line}")
     if times.get(hn) is not None and times.get(4 * hn) is not None:
-        # scaling test: 4x the objects and adoptions may cost about 4x the time; quadratic work costs 16x
+        # scaling test: 4x the objects and adoptions may cost about 4x the time; quadratic work costs 16x.
+        # Noise (a loaded machine) only ever adds time: before blaming the code, measure the big hub twice more and keep
+        # the minimum (an inflated small measurement only makes the test more lenient).
+        for _ in range(2):
+            if times[4 * hn] <= 8 * times[hn] + 0.3:
+                break
+            rc, o = sh([engine.HEXEC, "bigring", "hub", str(4 * hn)], timeout=1800)
+            mm = _re.search(r"secs=([0-9.]+)", o.strip().split("\n")[-1] if o.strip() else "")
+            if mm:
+                times[4 * hn] = min(times[4 * hn], float(mm.group(1)))
         if times[4 * hn] > 8 * times[hn] + 0.3:
             bad.append(f"hub of {4*hn} spokes took {times[4*hn]:.2f}s but a hub of {hn} spokes {times[hn]:.2f}s: super-linear")
     rc, o = sh([engine.HEXEC, "bigring", "clique", "300" if tier == "quick" else "600"], timeout=1800)
